@@ -187,6 +187,10 @@ func (e *SpecEnv) ident(id *ast.Ident) (SV, error) {
 		if fv.Name() == name {
 			pt := fv.Type().Underlying().(*types.Pointer).Elem()
 			// a free variable is the address of the captured variable: the name denotes its current contents
+			if addr, ok := g.fvBind[name]; ok && e.fn != g.f {
+				a := g.resolveAddr(addr, e.state())
+				return SV{g.w.loadAddr(a, e.state(), pt), pt}, nil
+			}
 			if e.fn == g.f {
 				a := g.resolveAddr(fv, e.state())
 				return SV{g.w.loadAddr(a, e.state(), pt), pt}, nil
@@ -685,6 +689,9 @@ func (e *SpecEnv) call(n *ast.CallExpr) (SV, error) {
 			}
 			return SV{}, fmt.Errorf("unchanged_except: no such field %s", spec)
 		case "panicking":
+			if e.g.symPanicking != nil && e.fn == e.g.f && !e.g.panicking {
+				return SV{*e.g.symPanicking, tBoolT}, nil
+			}
 			if e.g.panicking {
 				return SV{T("true", "Bool"), tBoolT}, nil
 			}
